@@ -401,7 +401,7 @@ class Engine:
         t = time.time(); r = s.check(); self.solver_time += time.time() - t
         return r, s
 
-    def check_relevant(self, extra, depth=2):
+    def check_relevant(self, extra, depth=2, quantifier_free=False):
         """retry with only the hypotheses that share uninterpreted symbols with the goal (closure to `depth`); an unsat
         answer from fewer hypotheses is still a proof"""
         def syms(e, acc):
@@ -415,7 +415,16 @@ class Engine:
                     if x.decl().kind() == z3.Z3_OP_UNINTERPRETED: acc.add(x.decl().name())
                     todo.extend(x.children())
             return acc
-        hyps = [(c, syms(c, set())) for c in self.path.pc if is_sym(c)]
+        def has_q(e):
+            todo = [e]; seen = set()
+            while todo:
+                x = todo.pop()
+                if x.get_id() in seen: continue
+                seen.add(x.get_id())
+                if z3.is_quantifier(x): return True
+                if z3.is_app(x): todo.extend(x.children())
+            return False
+        hyps = [(c, syms(c, set())) for c in self.path.pc if is_sym(c) and not (quantifier_free and has_q(c))]
         goal = set()
         for e in extra: syms(e, goal)
         rel = set(goal); chosen = set()
@@ -503,7 +512,9 @@ class Engine:
         rec["secs"] = time.time() - t
         if self.keep_smt2: rec["smt2"] = s.sexpr()
         if r == z3.unknown:
-            r2 = self.check_relevant(extra)
+            r2 = self.check_relevant(extra, depth=1, quantifier_free=True)
+            if r2 != z3.unsat: r2 = self.check_relevant(extra, depth=1)
+            if r2 != z3.unsat: r2 = self.check_relevant(extra, depth=2)
             if r2 == z3.unsat:
                 r = z3.unsat; rec["backend"] += " (hypotheses restricted to the goal's cone of influence)"
                 rec["secs"] = time.time() - t
